@@ -15,6 +15,10 @@ CONSTANTS
   Cap = 0
   Wins = {}
   OwnStorage = TRUE
+  Forms = {"ln"}
+  Shapes = {"plain"}
+  WholeMsg = TRUE
+  SignedCid = TRUE
   Sink <- KeepLast
 POSTCONDITION Accepted
 CHECK_DEADLOCK FALSE
